@@ -6,7 +6,7 @@
    double), including q / -q pairs and elements with w < 0 and a tiny vector part (the defect repaired by
    fix edde36d); not proved. *)
 From Coq Require Import Reals List Lra.
-From Manif Require Import Scalar Mat Group RInst Generic LieSpec SO2 SE2 SO3 Rn SE2Proofs SO3Proofs RnProofs Log_SE2 Approx_Inst.
+From Manif Require Import Scalar Mat Group RInst Generic LieSpec SO2 SE2 SO3 Rn SE2Proofs SO3Proofs RnProofs Log_SE2 Approx_Inst SE3 Log_SO3 Log_SE3.
 Import ListNotations.
 Local Open Scope R_scope.
 
@@ -37,6 +37,23 @@ Proof. intros H. exact (so3_log_neg eps H x y z w). Qed.
 Theorem C03_SO3_log_conj eps x y z w : so3_log RS eps [- x; - y; - z; w] = @vneg RS (so3_log RS eps [x; y; z; w]).
 Proof. exact (so3_log_conj eps x y z w). Qed.
 Print Assumptions C03_SO3_log_double_cover.
+
+(* SO3, generic branch (vector part of the quaternion with squared norm above eps), BOTH hemispheres: exp(log q) is q when
+   w >= 0 and -q when w < 0, i.e. the same rotation; and the rotation angle of the logarithm is at most pi *)
+Theorem C03_SO3_exp_log_generic eps x y z w : 0 < eps -> n4 x y z w = 1 -> eps < x * x + y * y + z * z ->
+  so3_exp RS eps (so3_log RS eps [x; y; z; w]) = if Rlt_dec w 0 then [- x; - y; - z; - w] else [x; y; z; w].
+Proof. intros H. exact (so3_exp_log_generic eps H x y z w). Qed.
+Theorem C03_SO3_exp_log_rotation eps x y z w : 0 < eps -> n4 x y z w = 1 -> eps < x * x + y * y + z * z ->
+  so3_rotation RS (so3_exp RS eps (so3_log RS eps [x; y; z; w])) = so3_rotation RS [x; y; z; w].
+Proof. intros H. exact (so3_exp_log_rotation eps H x y z w). Qed.
+Theorem C03_SO3_log_angle_le_pi eps x y z w : 0 < eps -> n4 x y z w = 1 -> eps < x * x + y * y + z * z ->
+  @sqnorm RS (so3_log RS eps [x; y; z; w]) <= PI * PI.
+Proof. intros H. exact (so3_log_angle_le_pi eps H x y z w). Qed.
+(* SE3, generic branch, off the exact half turn (where the code's V^-1 divides by sin(theta) = 0): the translation is recovered exactly *)
+Theorem C03_SE3_exp_log_generic eps tx ty tz x y z w : 0 < eps -> n4 x y z w = 1 -> eps < x * x + y * y + z * z -> w <> 0 ->
+  se3_exp RS eps (se3_log RS eps [tx; ty; tz; x; y; z; w]) = [tx; ty; tz] ++ (if Rlt_dec w 0 then [- x; - y; - z; - w] else [x; y; z; w]).
+Proof. intros H. exact (se3_exp_log_generic eps H tx ty tz x y z w). Qed.
+Print Assumptions C03_SE3_exp_log_generic.
 
 Example C03_nonvacuous : se2_valid [1000000; -3; -3/5; 4/5] /\ - PI < 1 <= PI.
 Proof. split; [exists 1000000, (-3), (-3/5), (4/5); split; [reflexivity|lra] | pose proof PI2_1; pose proof PI_RGT_0; lra]. Qed.
